@@ -7,7 +7,10 @@ P = ['C16', 'C03']
 
 def register(reg):
     contract(reg, f'{L}:_is_nullable_safe', P, {'exp': 'opaque:Model'}, ret='bool', modifies=[],
-             ensures=[('property', 'result == spec_nullable_safe(exp)')])
+             ensures=[  # case by case first (no recursive definition involved: refutable with a concrete node)
+                      ('property', 'implies(isinstance(exp, Call), not result)'),
+                      ('property', 'implies(not isinstance(exp, (Call, Sequence, Choice)), result == uf_is_nullable(exp))'),
+                      ('property', 'result == spec_nullable_safe(exp)')])
     # nullability clauses of the node kinds (docs: what can match the empty string)
     S = 'tatsu/peg/syntax.py'
     B = 'tatsu/peg/basic.py'
